@@ -114,6 +114,10 @@ def run(ck):
     # and block recognisers can consume the terminator byte
     import c08
     c08.rule_N(ck, lib, skeleton.Skeleton(ck, lib), "C06-N")
+    # "... both when the messages are passed to run in one buffer and when they arrive through process": process gives
+    # every message a response buffer of its own and its bytes unchanged (the K-rules of C07)
+    import c07
+    c07.rule_K(ck, lib, "C06-K")
 
 
 def rule_R(ck, lib, RID):
